@@ -168,6 +168,131 @@ def check_table(acc, scheme, table, style="replay"):
                                             f"{bad[0][1]!r}, should be {bad[0][2]!r}", wit)
 
 
+def check_composite_handler(acc, rng, tag=None):
+    """Global balance THROUGH the real two-composite-object handler (the site that builds the table): one frozen pair of
+    molecules, every leaf with a positive factor derivative made the active unit once (in either composite object), the
+    handler's own confirmation + lifting run with scripted draws and the lifting draw integrated; the factor derivatives
+    are computed here from the Coulomb energy, not taken from the handler."""
+    import jellyfysh.setting as setting
+    from vf.jf import init_setting
+    from jellyfysh.base.node import Node
+    from jellyfysh.base.time import Time
+    from jellyfysh.base.unit import Unit
+    from jellyfysh.event_handler.two_composite_object_summed_bounding_potential_event_handler import \
+        TwoCompositeObjectSummedBoundingPotentialEventHandler
+    from jellyfysh.potential.inverse_power_potential import InversePowerPotential
+    k = rng.choice([2, 3, 3, 4])
+    L = 20.0
+    init_setting(3, [L] * 3, cubic=True, roots=2, per_root=k, levels=2)
+    d = rng.randrange(3)
+    vel = [0.0] * 3
+    vel[d] = 1.0
+    centre = [[rng.uniform(6.0, 8.0) for _ in range(3)]]
+    centre.append([c + rng.uniform(1.2, 2.0) * rng.choice([-1, 1]) for c in centre[0]])
+    pos = {(r, a): [centre[r][j] + rng.uniform(-0.5, 0.5) for j in range(3)] for r in range(2) for a in range(k)}
+    ch = {(r, a): rng.choice([1.0, -1.0, 0.4, -0.8, 2.0]) for r in range(2) for a in range(k)}
+    ids = sorted(pos)
+    # q_i = dU/dx_i along the direction of motion for U = sum over inter-object pairs c_i c_j / |r_i - r_j|
+    q = {}
+    for i in ids:
+        t = 0.0
+        for j in ids:
+            if j[0] != i[0]:
+                dx = [pos[i][m] - pos[j][m] for m in range(3)]
+                t += -ch[i] * ch[j] * dx[d] / math.sqrt(sum(c * c for c in dx)) ** 3
+        q[i] = t
+    tot = sum(abs(v) for v in q.values())
+    if tot == 0 or min(abs(v) for v in q.values()) < 1e-9 * tot:
+        return
+    wit = {"kind": "composite_handler", "k": k, "d": d, "positions": {str(i): pos[i] for i in ids},
+           "charges": {str(i): ch[i] for i in ids}, "rerun": tag}
+
+    def in_state(active, active_first):
+        br = []
+        for r in (0, 1):
+            mine = [i for i in ids if i[0] == r]
+            c = [sum(pos[i][m] for i in mine) / k for m in range(3)]
+            act = active[0] == r
+            root = Node(Unit(identifier=(r,), position=c, charge=None, velocity=[v / k for v in vel] if act else None,
+                             time_stamp=Time.from_float(0.0) if act else None), weight=1.0)
+            for i in mine:
+                a = i == active
+                root.add_child(Node(Unit(identifier=i, position=list(pos[i]), charge={"charge": ch[i]},
+                                         velocity=list(vel) if a else None, time_stamp=Time.from_float(0.0) if a else None),
+                                    weight=1.0 / k))
+            br.append(root)
+        if (active[0] == 1) == active_first:
+            br.reverse()
+        return br
+
+    for scheme in SCHEMES:
+        inflow = {i: 0.0 for i in ids}
+        ok = True
+        for active in ids:
+            if not q[active] > 0:
+                continue
+
+            def f(u, probe=None):
+                h = TwoCompositeObjectSummedBoundingPotentialEventHandler(
+                    potential=InversePowerPotential(power=1.0, prefactor=1.0),
+                    bounding_potential=InversePowerPotential(power=1.0, prefactor=1.0), lifting=_cls(scheme)(), charge="charge")
+                calls = [0]
+
+                def uniform(a, b):
+                    calls[0] += 1
+                    return a if calls[0] == 1 else a + (b - a) * u   # first draw: confirmation (always confirm)
+                old_u, old_e = random.uniform, random.expovariate
+                random.uniform, random.expovariate = uniform, (lambda lam: 0.0)
+                try:
+                    t = h.send_event_time(in_state(active, True))
+                    out = h.send_out_state()
+                finally:
+                    random.uniform, random.expovariate = old_u, old_e
+                if probe is not None:
+                    probe.append((t.quotient + t.remainder, calls[0]))
+                new = [leaf.value.identifier for b in out for leaf in b.children if leaf.value.velocity is not None]
+                return new[0] if len(new) == 1 else ("?", len(new))
+            pr = []
+            f(0.5, pr)
+            if abs(pr[0][0]) > 1e-9 or pr[0][1] != 2:
+                acc.count("composite_handler_cases_not_at_start_configuration")
+                ok = False
+                break
+            meas, answers, ends, nev = measure_1d(f, grid=64)
+            acc.count("composite_handler_active_units_integrated")
+            acc.count("selections_evaluated", nev)
+            for kk in answers:
+                if kk not in q or not q[kk] < 0:
+                    acc.violation("C05:nonnegative-derivative-selected",
+                                  f"{scheme} through the two-composite-object handler: active {active}, selected {kk} with "
+                                  f"factor derivative {q.get(kk)!r}", dict(wit, scheme=scheme, active=list(active)))
+                    ok = False
+            for kk, m in meas.items():
+                if kk in inflow:
+                    inflow[kk] += q[active] * m
+        if not ok:
+            continue
+        acc.case(("composite_handler", scheme, k, d, tuple(pos[ids[0]])), nontrivial=True)
+        acc.count("composite_handler_tables_balanced_checked")
+        if sum(1 for r in (0, 1) if any(q[i] > 0 for i in ids if i[0] == r)) == 2:
+            acc.count("composite_handler_tables_with_active_units_in_both_objects")
+        for i in ids:
+            want = -q[i] if q[i] < 0 else 0.0
+            if abs(inflow[i] - want) > 1e-7 * tot:
+                acc.violation("C05:flow-imbalance",
+                              f"{scheme} through the two-composite-object handler ({k} leaves each, direction {d}): inflow of "
+                              f"unit {i} is {inflow[i]!r}, its negative factor derivative is {want!r} (table {q})",
+                              dict(wit, scheme=scheme))
+                break
+    setting.reset()
+
+
+def shard_handler(acc, prop="C05", seed=0, shard=0, n=4):
+    rng = core.rng_for(prop, seed, "handler", shard)
+    for _ in range(n):
+        check_composite_handler(acc, rng, {"seed": seed, "shard": shard, "n": n})
+
+
 def shard(acc, prop="C05", seed=0, shard=0, n=50):
     rng = core.rng_for(prop, seed, "shard", shard)
     directed = [[((0,), 0.0), ((1,), 1.0), ((2,), -1.0)], [((0,), 1.0), ((1,), 0.0), ((2,), -1.0)],
@@ -198,6 +323,7 @@ def main(ctx):
                        "code's own answers, predicted breakpoints only place probes"]
     jobs = [{"seed": ctx.seed, "shard": s, "n": n} for s in range(nshards)]
     ctx.run_workers("vf.monitors.c05:shard", jobs)
+    ctx.run_workers("vf.monitors.c05:shard_handler", [{"seed": ctx.seed, "shard": s, "n": ctx.pick(3, 12)} for s in range(16)])
     # in real runs: every selection made by a lifting scheme goes to a unit with a strictly negative recorded derivative
     from vf.monitors import suite
     names = ["dipoles/dipole_factors_inside_first", "dipoles/dipole_factors_outside_first", "dipoles/dipole_factors_ratio",
@@ -211,9 +337,18 @@ def main(ctx):
     ctx.require("tables_with_several_positive_units", 300)
     ctx.require("tables_with_zero_entries", 100)
     ctx.require("active_units_integrated", 2000)
+    ctx.require("composite_handler_tables_balanced_checked", 30)
+    ctx.require("composite_handler_tables_with_active_units_in_both_objects", 15)
 
 
 def replay(acc, w):
     x = w["witness"]
+    if x.get("kind") == "composite_handler":
+        shard_handler(acc, **x["rerun"])
+        return
+    if "table" not in x:
+        from vf.monitors import c07
+        c07.replay(acc, w)      # run-time witness: re-run the recorded scenario with the C05 in-run monitor
+        return
     table = [(tuple(k), float.fromhex(v)) for k, v in x["table"]]
     check_table(acc, x["scheme"], table)
